@@ -729,6 +729,16 @@ def policy(repo, tier):
         feeds = [c_ for c_ in _calls(fn) if dotted(c_.func) == f"{var}.feed"]
         stores = [n for n in ast.walk(fn) if isinstance(n, ast.Name) and n.id == var and isinstance(n.ctx, ast.Store)]
         ok = len(feeds) == 1 and len(stores) == 1 and len(feeds[0].args) == 1
+        # The assumed tokenizer contract (DESIGN Appendix B) is that of feed(): an unterminated construct at the end of the
+        # input (e.g. `<!-- ...` without `-->`) stays buffered.  close() flushes such a remainder through handle_data, i.e.
+        # comment content would arrive as visible text -- a definite violation of the assumption, reported as such.
+        closes = [c_ for c_ in _calls(fn) if dotted(c_.func) in (f"{var}.close", f"{var}.goahead")]
+        if closes:
+            obls.append(ground_obligation(f"C17/{m.rel.split('/')[-1]}::{qual}/call-site#parser-is-fed-but-never-closed-(unterminated-markup-stays-hidden)",
+                                          False, f"line {closes[0].lineno}: {ast.unparse(closes[0])} flushes an unterminated comment / declaration as text", m.rel))
+        else:
+            obls.append(ground_obligation(f"C17/{m.rel.split('/')[-1]}::{qual}/call-site#parser-is-fed-but-never-closed-(unterminated-markup-stays-hidden)",
+                                          True, "", m.rel))
         return ok, f"{var} = {cls}(); {len(feeds)} feed call(s)", var
 
     ok, why, var = builder_use(h, "read_html", HCLS, None)
